@@ -46,6 +46,13 @@ class Sessions(Stage):
                                                           'matcher', 'matcher ' + scripts.gen_matcher_text(d, g), 'matcher (', 'list ~ x', 'li', 'frob', '', 'connection Q',
                                                           'filter ' + d.choice(scripts.MALFORMED), 'breakpoint ' + d.choice(scripts.MALFORMED)])])
             else: extra.append(['cmd', 'list ' + scripts.gen_matcher_text(d, g)])
+        if d.chance(0.4):
+            # fixed-point arguments that are exactly zero (and minus zero as libwayland prints it), integers that are zero, empty strings
+            t += 1000
+            z = d.choice(['0.00000000', '-0.00000000', '0.00000000']) if dialect == 'new' else d.choice(['0.000000', '-0.000000'])
+            extra.append(['line', '%s%swl_pointer%s%d.motion(0, %s, %s)' % (wire.timestamp(t, dialect), tag, sep, 905 + d.int(0, 3), z, d.choice([z, '7.25000000' if dialect == 'new' else '7.250000']))])
+            if d.chance(0.5):
+                extra.append(['line', '%s%s -> zz_unknown%s%d.frob(0, %s, "", nil)' % (wire.timestamp(t + 10, dialect), tag, sep, 915, z)])
         # label matchers over enum-decorated messages (what a matcher compares must not carry presentation) and the long help texts
         V = rm.vocab(specs)
         labs = [str(x) for x in (V.get('label') or [])]
